@@ -20,7 +20,7 @@
    The reference itself is validated against afero OsFs by the side-by-side runs on the implementation. *)
 From Coq Require Import List NArith ZArith Bool.
 Import ListNotations.
-From STFS Require Import Str Db Tape Index Ops Fs Diff Norm TapeLemmas Append C01Str C01Sim T02Ns T02Spec.
+From STFS Require Import Str Db Tape Index Ops Fs Diff Norm TapeLemmas Append C01Str C01Sim T02Ns T02Spec T04Def T04Content T02wNs T02wSpec T02wHist.
 Open Scope N_scope.
 
 Definition mutator (k : call) : bool :=
@@ -95,7 +95,31 @@ Theorem C02_remove_all : forall (hr : bool) (c : cfg), plain c -> 0 < c_rs c -> 
   Good hr c s' /\ o = snd (spec_remove_all (abs s) n) /\ ns_eq (abs s') (fst (spec_remove_all (abs s) n)).
 Proof. exact T02_remove_all. Qed.
 
+(* OpenFile with ANY flag combination + Write + Close (CWriteFile): outcome and namespace are exactly those of the executable
+   description spec_write_file_q true (every access mode, O_CREATE, O_EXCL, O_TRUNC, O_APPEND, any data, forced empty writes:
+   nothing excluded), and those of the reference spec_write_file outside three recorded corners (write_corner,
+   Proofs/T02wCounter.v W1-W3: O_TRUNC on an existing empty file stamps nothing; a zero-byte Write still rewrites the
+   record; a directory opened O_RDONLY|O_APPEND answers is-a-directory) *)
+Theorem C02_write_file_exact : forall (hr : bool) (c : cfg), plain c -> 0 < c_rs c -> c_readonly c = false ->
+  forall s e n o perm d force, Good4 hr c s -> hb_env e -> good n -> write_bound (abs s) n d ->
+  let '(s', oc) := step c (with_env s e) (CWriteFile n o perm d force) in
+  exists cid, Good4 hr c s' /\ oc = snd (spec_write_file_q true c (abs s) n o perm d force (ev_now e) cid) /\
+    ns_eq (abs s') (fst (spec_write_file_q true c (abs s) n o perm d force (ev_now e) cid)).
+Proof. exact T02_write_file_exact. Qed.
+Theorem C02_write_file : forall (hr : bool) (c : cfg), plain c -> 0 < c_rs c -> c_readonly c = false ->
+  forall s e n o perm d force, Good4 hr c s -> hb_env e -> good n -> write_pre (abs s) n o d force ->
+  let '(s', oc) := step c (with_env s e) (CWriteFile n o perm d force) in
+  exists cid, Good4 hr c s' /\ oc = snd (spec_write_file c (abs s) n o perm d force (ev_now e) cid) /\
+    ns_eq (abs s') (fst (spec_write_file c (abs s) n o perm d force (ev_now e) cid)).
+Proof. exact T02_write_file. Qed.
+(* histories that mix the nine calls with CWriteFile (q = true: nothing excluded; q = false: against the reference) *)
+Theorem C02_history_with_writes : forall (hr : bool) (c : cfg), plain c -> 0 < c_rs c -> c_readonly c = false ->
+  forall (q : bool) (r : list (call * env)) (s : sys), Good4 hr c s -> ok_run_w c q s r -> conforms_w c q s r /\ Good4 hr c (final c s r).
+Proof. exact T02_history_w. Qed.
+
 Print Assumptions C02_readonly_refuses.
+Print Assumptions C02_write_file_exact.
+Print Assumptions C02_history_with_writes.
 Print Assumptions C02_step.
 Print Assumptions C02_history.
 Print Assumptions C02_create_existing.
